@@ -28,6 +28,7 @@ class ClientWorld(W.Base):
         self.close_req = False
         self.ever = False
         self.nconnected = 0
+        self.nfailed = 0
         self.lst = None
         self.comp = None
         W._seq[0] += 1
@@ -57,6 +58,7 @@ class ClientWorld(W.Base):
                         if event.name == 'connected':
                             w.nconnected += 1
                     elif event.name != 'read':
+                        w.nfailed += 1
                         w.notes.append('%s: %r' % (event.name, args))
 
                 @handler('exception', channel='*', priority=50)
@@ -87,6 +89,7 @@ class ClientWorld(W.Base):
             self.root.fire(connect(self.path), 'c12cli')
         t0 = time.monotonic()
         got = None
+        failed0 = self.nfailed
         while got is None or self.nconnected < want:
             self.pump()
             if got is None:
@@ -96,6 +99,9 @@ class ClientWorld(W.Base):
                     pass
             if got is not None and self.nconnected >= want:
                 break
+            if got is None and self.nfailed > failed0 and not len(self.root) and not self.root._tasks:
+                self.op('connect_failed')       # the component reported error / unreachable: no link
+                return
             if time.monotonic() - t0 > W.CAP_S:
                 if got is not None:
                     got.close()
